@@ -12,6 +12,7 @@ import Genql.Model.Codec
 import Genql.Model.Async
 import Genql.Model.Selector
 import Genql.Model.Vars
+import Genql.Model.VarsQuery
 open Lean Genql
 
 abbrev V := Val Float
@@ -328,6 +329,29 @@ def handle (j : Json) : Json :=
         | some none => Json.null
         | some (some v) => encVal v
       pure (Json.mkObj [("id", id), ("r", "ok"), ("store", encVal (.obj st')), ("cols", Json.arr colsJ.toArray)])
+    | "varsquery" => do
+      -- the select list over the flat table `t`, `passes` times in a row (a UNION ALL of the query with itself runs it
+      -- twice), the variable map threaded through: `Model/VarsQuery.rowsVars`
+      let doc ← decRow (← j.getObjVal? "doc")
+      let st ← decRow (← j.getObjVal? "store")
+      let selJ ← (← j.getObjVal? "sel").getArr?
+      let sel ← selJ.toList.mapM decSel
+      let passes ← (← j.getObjVal? "passes").getNat?
+      let rows : List (Row Float) := match Val.get doc "t" with
+        | .arr xs => xs.filterMap fun x => match x with | .obj fs => some fs | _ => none
+        | _ => []
+      let env : Env Float := { dfx := .none, constants := none, failOn := none }
+      let ctx : Ctx Float := { data := doc, hard := false, grouped := false, matched := rows.map Val.obj, fromLen := rows.length }
+      let rec go (n : Nat) (st : Row Float) (acc : List V) : R (List V × Row Float) :=
+        match n with
+        | 0 => .ok (acc, st)
+        | n + 1 =>
+          match VarsQ.rowsVars env ctx sel rows st with
+          | .ok (outs, st', _) => go n st' (acc ++ outs)
+          | .error e => .error e
+      match go passes st [] with
+      | .ok (outs, st') => pure (Json.mkObj [("id", id), ("r", "ok"), ("v", encVal (.arr outs)), ("store", encVal (.obj st'))])
+      | .error e => pure (Json.mkObj [("id", id), ("r", errName e)])
     | "async" => do
       let o ← asyncOp j
       pure (o.setObjVal! "id" id)
